@@ -75,7 +75,9 @@ contract(DEP + 'Initiator.send_dep_req_recv_dep_res', 'C04',
          name='C04/Initiator.send_dep_req_recv_dep_res', use=['C04/Initiator.frame-exchange'],
          ensures=[('O-errors.no-nack', 'result.pfb.fmt != 5'),
                   ('O-errors.rtox-value', 'result.pfb.fmt != 9 or len(result.data) >= 1')],
-         raises=ERRS,
+         # a transmission error of any frame of this step is answered by NAK/ATN retries and never reported raw:
+         # the step ends with the response, a timeout (deadline), a protocol error (retries used up) or a broken link
+         raises={k: v for k, v in ERRS.items() if k != 'nfc.clf:TransmissionError'},
          loops={(TQ, 'While', 0): LoopSpec(invariant=['True'], havoc={'timeout': Any()})})
 
 # Target side
